@@ -209,7 +209,8 @@ _time = st.one_of(st.sampled_from([0, 1, 86399, 946684799, 946684800, (1 << 31) 
                   st.integers(0, Y2050 - 1), st.integers(Y2050, MAXT), st.integers(Y2050 - 400 * 86400, Y2050 + 400 * 86400), st.integers(1500000000, 1900000000))
 _validity = st.tuples(_time, _time).map(lambda t: (min(t), max(t)) if t[0] != t[1] else ((t[0], t[0] + 1) if t[0] < MAXT else (t[0] - 1, t[0])))
 _d = st.one_of(st.integers(1, M.N - 2), st.integers(1, 1 << 64), st.sampled_from([1, 2, 3, M.N - 2, M.N - 3])).map(h)
-_id = st.one_of(st.just(X.DEFAULT_ID), st.binary(min_size=1, max_size=32), st.binary(min_size=1, max_size=32), st.binary(min_size=200, max_size=300),
+# the empty string stands for "no signer ID" (NULL pointer: the signature is over SM3(TBS) without a Z value)
+_id = st.one_of(st.just(X.DEFAULT_ID), st.just(b""), st.binary(min_size=1, max_size=32), st.binary(min_size=1, max_size=32), st.binary(min_size=200, max_size=300),
                 st.text(min_size=1, max_size=12).map(lambda s: s.encode("utf-8")), st.sampled_from([b"\x00", b"1234567812345678\x00", b"12345678"])).map(hb)
 _uid = st.one_of(st.just(""), st.just(""), st.binary(min_size=32, max_size=32).map(hb))
 _lam = st.one_of(st.just(1), st.just(1), st.integers(2, M.P - 1)).map(h)
@@ -225,6 +226,8 @@ cert_case = st.fixed_dictionaries({
 # shared oracles
 
 def other_ids(sid):
+    if sid is None:
+        return [("default-id", X.DEFAULT_ID), ("one-byte", b"\x00"), ("empty", b"")]
     out = [("bit-flip", bytes([sid[0] ^ 1]) + sid[1:]), ("extended-00", sid + b"\x00"), ("last-bit", sid[:-1] + bytes([sid[-1] ^ 0x80]))]
     if len(sid) > 1:
         out.append(("prefix", sid[:-1]))
@@ -233,6 +236,9 @@ def other_ids(sid):
         out.append(("default-id", X.DEFAULT_ID))
     else:
         out.append(("upper", b"1234567812345679"))
+    # no ID at all: a NULL pointer (the digest then has no Z value) and a valid pointer with length 0
+    out.append(("absent", None))
+    out.append(("empty", b""))
     return out
 
 
@@ -246,7 +252,7 @@ def other_keys(pub, extra=()):
 def verify_oracles(ctx, l, kind, der, pub, sid, lam, case_id, extra_keys=()):
     """positive control + other keys + other IDs through x509_signed_verify, and the Python model over the exact TBS bytes"""
     ctx.check(X.model_verify(der, pub, sid), "%s: the signature inside the issued object does not verify in the Python SM2 model over the TBS bytes with ID %s"
-              % (kind, sid.hex()), kind + "/sign/model-rejects")
+              % (kind, X.id_text(sid)), kind + "/sign/model-rejects")
     r = X.Verifier(l, pub, sid)(der)
     ctx.check(r == 1, "%s: x509_signed_verify under the issuer key and signer ID returns %d" % (kind, r), kind + "/verify/rejects-issued")
     ok = r == 1
@@ -263,7 +269,7 @@ def verify_oracles(ctx, l, kind, der, pub, sid, lam, case_id, extra_keys=()):
     for lab, i2 in other_ids(sid):
         r = X.Verifier(l, pub, i2)(der)
         n += 1
-        ctx.check(r != 1, "%s issued with signer ID %s verifies with the ID %s (%s)" % (kind, sid.hex(), i2.hex(), lab), kind + "/verify/other-id-accepted/" + lab)
+        ctx.check(r != 1, "%s issued with signer ID %s verifies with the ID %s (%s)" % (kind, X.id_text(sid), X.id_text(i2), lab), kind + "/verify/other-id-accepted/" + lab)
     ctx.case(nontrivial=True, classes=["negative-verifications"], ident=[case_id, "neg"], n=n)
     return ok
 
@@ -423,7 +429,7 @@ def make_cert(ctx, l, case):
     exts = build_exts(ctx, l, specs) if specs else b""
     iuid, suid = ub(case["iuid"]), ub(case["suid"])
     ver = version_for(case, bool(specs), bool(iuid or suid))
-    serial, sid = ub(case["serial"]), ub(case["id"])
+    serial, sid = ub(case["serial"]), (ub(case["id"]) or None)
     nb, na = case["validity"]
     der = X.issue_cert(l, ver, serial, issuer, nb, na, subject, spub, iuid, suid, exts, sign_d, sid, case["seed"])
     return dict(der=der, version=ver, serial=serial, issuer=issuer, subject=subject, nb=nb, na=na, spub=spub, ipub=ipub, iuid=iuid, suid=suid, exts=exts,
@@ -477,7 +483,7 @@ def cert_classes(case, c):
         cl += ["name-tag=%d" % a["tag"] for a in n["attrs"]]
     if c["iuid"] or c["suid"]:
         cl.append("unique-id")
-    cl.append("id-default" if c["sid"] == X.DEFAULT_ID else "id-len>=200" if len(c["sid"]) >= 200 else "id-other")
+    cl.append("id-absent" if c["sid"] is None else "id-default" if c["sid"] == X.DEFAULT_ID else "id-len>=200" if len(c["sid"]) >= 200 else "id-other")
     return cl
 
 
@@ -511,9 +517,9 @@ def cert(case, ctx):
         wrong = ca_cert_for(l, c, M.add(c["ipub"], M.G))
         r = X.verify_by_ca_cert(l, "x509_cert_verify_by_ca_cert", der, wrong, sid)
         ctx.check(r != 1, "x509_cert_verify_by_ca_cert accepts a CA certificate with the issuer's name but another key", "cert/verify-by-ca/other-key-accepted")
-        for lab, i2 in other_ids(sid)[:2]:
+        for lab, i2 in other_ids(sid)[:2] + other_ids(sid)[-2:]:
             r = X.verify_by_ca_cert(l, "x509_cert_verify_by_ca_cert", der, ca, i2)
-            ctx.check(r != 1, "x509_cert_verify_by_ca_cert accepts the signer ID %s for a certificate issued with %s" % (i2.hex(), sid.hex()), "cert/verify-by-ca/other-id-accepted")
+            ctx.check(r != 1, "x509_cert_verify_by_ca_cert accepts the signer ID %s for a certificate issued with %s" % (X.id_text(i2), X.id_text(sid)), "cert/verify-by-ca/other-id-accepted")
         vs.append(("x509_cert_verify_by_ca_cert", lambda m: X.verify_by_ca_cert(l, "x509_cert_verify_by_ca_cert", m, ca, sid)))
     if ok:
         alg_swaps(ctx, "cert", der, vs[0][1], case)
@@ -568,7 +574,7 @@ def make_req(ctx, l, case):
     spub, kpub = M.pub_of(sub_d), M.pub_of(sign_d)
     subject, = build_names(ctx, l, [case["subject"]])
     attrs, ref_attrs = req_attrs(ctx, l, case["attrs"])
-    sid = ub(case["id"])
+    sid = ub(case["id"]) or None
     der = X.issue_req(l, subject, spub, attrs, sign_d, sid, case["seed"])
     return dict(der=der, subject=subject, spub=spub, kpub=kpub, attrs=attrs, sid=sid, foreign=case["foreign"] and spub != kpub)
 
@@ -622,7 +628,7 @@ def req(case, ctx):
         ctx.check(r == 1, "x509_req_verify returns %d on the issued request" % r, "req/verify/rejects-issued")
         for lab, i2 in other_ids(sid):
             r2 = X.req_verify(l, der, i2)
-            ctx.check(r2 != 1, "x509_req_verify accepts the signer ID %s for a request issued with %s (%s)" % (i2.hex(), sid.hex(), lab), "req/verify/other-id-accepted/" + lab)
+            ctx.check(r2 != 1, "x509_req_verify accepts the signer ID %s for a request issued with %s (%s)" % (X.id_text(i2), X.id_text(sid), lab), "req/verify/other-id-accepted/" + lab)
         vs = [("x509_req_verify", lambda m: X.req_verify(l, m, sid)), ("x509_signed_verify", X.Verifier(l, c["kpub"], sid))]
         ok = ok and r == 1
     if ok:
@@ -675,7 +681,7 @@ def make_crl(ctx, l, case):
         ctx.check(one == ref, "RevokedCertificate built by the library from %r is %s, reference is %s" % (en, one.hex(), ref.hex()), "crl/revoked/encoding")
         revoked += one
     ver = 1 if (specs or case["entries"]) else (-1, 1)[case["ver"]]
-    sid = ub(case["id"])
+    sid = ub(case["id"]) or None
     der = X.issue_crl(l, ver, issuer, case["this"], case["next"], revoked, exts, sign_d, sid, case["seed"])
     return dict(der=der, version=ver, issuer=issuer, this=case["this"], next=case["next"], revoked=revoked, exts=exts, specs=specs, sid=sid, ipub=ipub, sign_d=sign_d,
                 entries=case["entries"])
@@ -802,9 +808,9 @@ def crl(case, ctx):
         wrong = ca_cert_for(l, c, M.add(c["ipub"], M.G))
         r = X.verify_by_ca_cert(l, "x509_crl_verify_by_ca_cert", der, wrong, sid)
         ctx.check(r != 1, "x509_crl_verify_by_ca_cert accepts a CA certificate with the issuer's name but another key", "crl/verify-by-ca/other-key-accepted")
-        lab, i2 = other_ids(sid)[0]
-        r = X.verify_by_ca_cert(l, "x509_crl_verify_by_ca_cert", der, ca, i2)
-        ctx.check(r != 1, "x509_crl_verify_by_ca_cert accepts the signer ID %s for a CRL issued with %s" % (i2.hex(), sid.hex()), "crl/verify-by-ca/other-id-accepted")
+        for lab, i2 in other_ids(sid)[:1] + other_ids(sid)[-2:]:
+            r = X.verify_by_ca_cert(l, "x509_crl_verify_by_ca_cert", der, ca, i2)
+            ctx.check(r != 1, "x509_crl_verify_by_ca_cert accepts the signer ID %s for a CRL issued with %s" % (X.id_text(i2), X.id_text(sid)), "crl/verify-by-ca/other-id-accepted")
         vs.append(("x509_crl_verify_by_ca_cert", lambda m: X.verify_by_ca_cert(l, "x509_crl_verify_by_ca_cert", m, ca, sid)))
     if ok:
         alg_swaps(ctx, "crl", der, vs[0][1], case)
